@@ -130,6 +130,7 @@ def Fn(params, body, defaults=(), free=(), gen=False, ret=""):
 def Yield(e): return N("yield", e=e)
 def Spread(e): return N("spread", e=e)
 def Let(n, ty, e): return N("let", n=n, ty=ty, e=e)
+def MLet(ns, tys, e, bare=False): return N("mlet", ns=list(ns), tys=list(tys), e=e, bare=bare)
 
 
 def Arm(pats, body, guard=None):
@@ -162,7 +163,7 @@ def children(n):
         return [n["a"], n["b"]]
     if k == "idx":
         return [n["c"], n["i"]]
-    if k in ("asg", "opasg", "throw", "masg", "yield", "spread", "let"):
+    if k in ("asg", "opasg", "throw", "masg", "yield", "spread", "let", "mlet"):
         return [n["e"]]
     if k == "match":
         r = [n["subj"]]
@@ -425,6 +426,11 @@ class Renderer:
             return "%s..." % self.paren_strict(n["e"])
         if k == "let":
             return "let %s: %s = %s" % (n["n"], n["ty"], self.paren(n["e"]))
+        if k == "mlet":
+            ts = ", ".join(a + (": " + t if t else "") for a, t in zip(n["ns"], n["tys"]))
+            if n["bare"] and n["e"]["k"] == "tuple" and len(n["e"]["xs"]) >= 2:
+                return "let %s = %s" % (ts, ", ".join(self.paren(x) for x in n["e"]["xs"]))
+            return "let %s = %s" % (ts, self.paren(n["e"]))
         if k == "break":
             return "break" + (" " + self.paren(n["e"]) if n["has"] else "")
         if k == "continue":
